@@ -1147,6 +1147,12 @@ func rulesC13(w *World, o *Out) {
 				}
 			}
 		}
+		// (the lookup built in one go by util/slice.MakeMapKeys over the evidence has no per-entry condition at all)
+		for _, c := range CallsIn(jm) {
+			if strings.HasSuffix(c.Callee.Pkg, "util/slice") && strings.HasPrefix(c.Callee.Name, "MakeMapKeys") {
+				nLk++
+			}
+		}
 		o.Count("C13.R3 supplier lookup writes", nLk, 1)
 	}
 	// evidence that was acknowledged is evidence that is stored: prune-time jailing looks at the stored entries
